@@ -68,6 +68,7 @@ func (fc *FuncCtx) evalRecv(sel *ast.SelectorExpr, s *types.Selection, st *State
 	// promoted method through embedded fields: walk the path except the last (method) index
 	cur := fc.eval(sel.X, st)
 	curT := fc.info.TypeOf(sel.X)
+	addr := "" // reference of the object that holds the current embedded struct (embedded structs share the host's reference)
 	for _, i := range idx[:len(idx)-1] {
 		if pt, ok := curT.Underlying().(*types.Pointer); ok {
 			fc.safety(st, "nil", sel, not(eq(cur.T(), "0")))
@@ -79,6 +80,11 @@ func (fc *FuncCtx) evalRecv(sel *ast.SelectorExpr, s *types.Selection, st *State
 			if f == nil {
 				// receiver field not materialised: opaque
 				return scalar(fc.e.shapeOf(fv.Type()), fc.e.fresh("recv", "Int"))
+			}
+			if f.Embedded && f.Sh.Kind == KStruct {
+				addr = cur.T()
+			} else {
+				addr = ""
 			}
 			cur = fc.e.readFieldAt(st, ssh, f, cur.T())
 			curT = fv.Type()
@@ -92,6 +98,15 @@ func (fc *FuncCtx) evalRecv(sel *ast.SelectorExpr, s *types.Selection, st *State
 		}
 		cur = v
 		curT = fv.Type()
+		addr = ""
+	}
+	// a pointer-receiver method promoted from an embedded struct receives the host's reference
+	if fn, ok := s.Obj().(*types.Func); ok {
+		if r := fn.Type().(*types.Signature).Recv(); r != nil {
+			if _, isPtr := r.Type().Underlying().(*types.Pointer); isPtr && cur.Sh.Kind == KStruct && addr != "" {
+				return scalar(fc.e.shapeOf(r.Type()), addr)
+			}
+		}
 	}
 	return cur
 }
@@ -456,7 +471,11 @@ func (fc *FuncCtx) applyContract(c *ast.CallExpr, st *State, ct *Contract, fn *t
 		if lbl == "" {
 			lbl = fmt.Sprintf("c%d", i+1)
 		}
-		goal := mkEnv(st, nil, names).evalBool(r.Expr)
+		goal, skipped := fc.evalRequiresThroughIface(mkEnv(st, nil, names), r)
+		if skipped {
+			e.assumed["receiver well-formedness of the implementation behind interface call "+calleeLabel+" (clause: "+r.Src+")"] = true
+			continue
+		}
 		fc.oblige(st, "pre", calleeLabel+":"+lbl, c.Pos(), goal, r.Tags, r.Src)
 		st.assume(goal)
 	}
@@ -990,6 +1009,9 @@ func mentionsFreshAfter(term string, mark int) bool {
 func (fc *FuncCtx) havocDiff(h *State, d *stateDiff, whole bool) {
 	e := fc.e
 	allocBefore := h.alloc
+	if fc.frameBound != "" {
+		allocBefore = fc.frameBound
+	}
 	if d.alloc {
 		na := e.fresh("alloc", "Int")
 		h.assume("(>= " + na + " " + h.alloc + ")")
@@ -1085,6 +1107,17 @@ func (fc *FuncCtx) runLoop(node ast.Node, st *State, implicit func(h *State) []s
 	case *ast.FuncLit:
 		bodyPos = x.Body.Lbrace + 1
 	}
+	// ghost statements attached to the end of an iteration belong to the iteration
+	innerIter := iter
+	iter = func(h *State) ([]*State, []*State) {
+		back, exit := innerIter(h)
+		for _, b := range back {
+			if b != nil {
+				fc.runGhostAt(b, "loopend", "", ord, "", bodyPos)
+			}
+		}
+		return back, exit
+	}
 	d := fc.modifiedBy(st, iter)
 	checkInvs := func(s *State, kind string) {
 		if ls == nil {
@@ -1102,8 +1135,14 @@ func (fc *FuncCtx) runLoop(node ast.Node, st *State, implicit func(h *State) []s
 	fc.runGhostAt(st, "loopstart", "", ord, "", bodyPos)
 	checkInvs(st, "inv-entry")
 	h := st.clone()
+	frameBound := st.alloc
+	if ls != nil && ls.Frame == "entry" {
+		frameBound = fc.entryAlloc
+	}
+	fc.frameBound = frameBound
 	fc.havocDiff(h, d, false)
-	guard := &loopGuard{ord: ord, allocHead: st.alloc, keys: map[string]map[string]bool{}, pos: pos}
+	fc.frameBound = ""
+	guard := &loopGuard{ord: ord, allocHead: frameBound, keys: map[string]map[string]bool{}, pos: pos}
 	for k, targets := range d.heap {
 		if targets["~fresh"] && !targets["*"] {
 			guard.keys[k] = targets
@@ -1120,17 +1159,18 @@ func (fc *FuncCtx) runLoop(node ast.Node, st *State, implicit func(h *State) []s
 			h.assume(env.evalBool(inv.Expr))
 		}
 	}
+	fc.cover(h, fmt.Sprintf("loop%d-head", ord), pos)
 	back, exit := iter(h)
 	for _, b := range back {
 		if b == nil {
 			continue
 		}
-		fc.runGhostAt(b, "loopend", "", ord, "", bodyPos)
 		checkInvs(b, "inv-step")
 	}
 	out := e.merge(exit)
 	if out != nil {
 		fc.runGhostAt(out, "loopexit", "", ord, "", bodyPos)
+		fc.cover(out, fmt.Sprintf("loop%d-exit", ord), pos)
 	}
 	return out
 }
@@ -1355,4 +1395,21 @@ func (fc *FuncCtx) storeHook(st *State, key, ref string) {
 		fc.oblige(st, "loop-frame", fmt.Sprintf("loop%d:%s", g.ord, key), g.pos, goal, nil,
 			"a store to "+key+" inside the loop must target an object allocated since the loop was entered (or a loop-invariant location)")
 	}
+}
+
+// evalRequiresThroughIface evaluates a precondition clause; a clause that selects fields of the
+// receiver cannot be evaluated when the call goes through an interface value (the contract is the
+// implementation's, shared via "sameas"): such a clause is the implementation's own well-formedness
+// and is skipped (recorded as an assumption).
+func (fc *FuncCtx) evalRequiresThroughIface(env *SpecEnv, r *Clause) (goal string, skipped bool) {
+	defer func() {
+		if rec := recover(); rec != nil {
+			if se, ok := rec.(specErr); ok && strings.Contains(string(se), "in iface") {
+				skipped = true
+				return
+			}
+			panic(rec)
+		}
+	}()
+	return env.evalBool(r.Expr), false
 }
